@@ -13,7 +13,8 @@ META = {
     "independent parser of that format and yields the entry's display name and an equivalent target, hence any two protocols agree; the directory "
     "walk renders each entry exactly once in list order for every protocol and abstract setting; menu MIME types are mapped as documented; a "
     "directory selector with and without a trailing slash reaches handler selection identically; the search string of each protocol's own mechanism "
-    "reaches handler selection through one decoding with the same error handler.",
+    "reaches handler selection through one decoding with the same error handler."
+    " The MIME type each protocol's handle() advertises is its rendering of the entry's one MIME type whatever the encoding fields say; selectors that merely contain URL: are ordinary links in every protocol.",
     "trusted": "CrossHair/z3; tagging codec stubs (contract validated in C05.2); independent extractors in harness/renderlib.py.",
     "explanation": "Per-protocol render/parse agreement on symbolic entries + shared-walk and parser wiring obligations.",
     "assumptions": [
